@@ -185,6 +185,29 @@ def is_tree(reg):
     return True
 
 
+def is_acyclic(reg):
+    """no model reaches itself through field references, and every model is reachable from a root"""
+    graph = {m.index: {p.type.index for t in m.type.values() for p in iter_ptrs(t)} for m in reg.models}
+    if len(reachable_models(reg)) != len(graph):
+        return False
+    color = {}
+
+    def dfs(u):
+        color[u] = 1
+        for v in graph.get(u, ()):
+            if color.get(v) == 1:
+                return False
+            if v not in color and not dfs(v):
+                return False
+        color[u] = 2
+        return True
+
+    try:
+        return all(dfs(u) for u in list(graph) if u not in color)
+    except RecursionError:
+        return False
+
+
 # ---------------------------------------------------------------------------------------------
 # loader
 
@@ -233,12 +256,9 @@ def resolve_hints(module, fw):
     ld.paths = {}
     ld.ns = {}
     for cls, encl, path in ld.classes:
-        ns = {}
-        for e in encl:
-            ns.update({k: v for k, v in vars(e).items() if inspect.isclass(v)})
-            ns[e.__name__] = e
-        ns.update({k: v for k, v in vars(cls).items() if inspect.isclass(v)})
-        ns[cls.__name__] = cls
+        # Python scoping: an annotation in a class body sees that body's own names and the module globals - not the names of
+        # enclosing class bodies (so a reference to a class nested elsewhere needs a dotted path from a module-level class)
+        ns = {k: v for k, v in vars(cls).items() if inspect.isclass(v)}
         ld.ns[cls] = ns
         ld.paths[cls] = path
     if fw in ("pydantic", "sqlmodel"):
